@@ -5,12 +5,22 @@
 (* Tableau.tla.  One case per behaviour, one gate per TLC step; both       *)
 (* models are advanced in lock step.                                       *)
 (*                                                                         *)
-(* A case: [n, sv, ops, meas, dev]                                         *)
+(* A case: [n, sv, ops, meas, dev, lc]                                     *)
 (*   sv   = 1: carry the exact state vector (small n), 0: tableau only     *)
 (*   ops  = Clifford gate records (Gates.tla format; mods <<>> or adjoint) *)
 (*   meas = TapeEval requests (expval of a Pauli word / probs / state)     *)
 (*   dev  = [has, rows]: the tableau default.clifford RETURNED for this    *)
 (*          circuit (qp.state(), tableau=True) as 2n rows [x, z, r]        *)
+(*   lc   = linear combinations of Pauli words H = sum_i (+-c_i/4) P_i      *)
+(*          (terms [c, s, pw], c > 0, s = 1: minus) that are measured with *)
+(*          FINITE SHOTS (expval / var of a Sum, Hamiltonian, Hermitian).  *)
+(*          TLC decides per combination: the exact expectation num/4; det: *)
+(*          every term is +-(a stabilizer), i.e. every single shot of      *)
+(*          every term has the same outcome, so ANY sampling estimate      *)
+(*          equals num/4 exactly and the state is an eigenstate (var = 0); *)
+(*          loose/4 = sum of |c_i| over the terms with expectation 0 (fair *)
+(*          coins): a shot estimate deviates by at most z*(loose/4)/sqrt N *)
+(*          whatever the correlation between the terms' samples.           *)
 (*                                                                         *)
 (* At the end TLC                                                          *)
 (*  * checks the two models against each other ("self"): every stabilizer  *)
@@ -50,7 +60,21 @@ SelfVerdict ==
   ELSE IF \E i \in NW+1..2*NW : ~EqInt(Expval(TbWordOfRow(tab[i])), Sgn(tab[i].r)) THEN "model-stabilizer-does-not-stabilize-exact-state"
   ELSE IF \E j \in 1..Len(Case.meas) : Case.meas[j].t = "expval" /\ ~EqInt(Expval(Case.meas[j].pw), TbExpect(tab, NW, Case.meas[j].pw))
        THEN "model-expectation-differs-from-exact"
+  ELSE IF \E k \in 1..Len(Case.lc) : \E i \in 1..Len(Case.lc[k]) :
+            ~EqInt(Expval(Case.lc[k][i].pw), TbExpect(tab, NW, Case.lc[k][i].pw))
+       THEN "model-expectation-differs-from-exact"
   ELSE "ok"
+
+\* finite-shot linear combinations (see the header)
+RECURSIVE LcFold(_, _, _)
+LcFold(l, i, acc) ==
+  IF i > Len(l) THEN acc
+  ELSE LET e == TbExpect(tab, NW, l[i].pw)
+           c == IF l[i].s = 1 THEN -l[i].c ELSE l[i].c
+       IN LcFold(l, i + 1, [num |-> acc.num + c * e, loose |-> acc.loose + (IF e = 0 THEN l[i].c ELSE 0),
+                            nz |-> acc.nz + (IF e = 0 THEN 0 ELSE 1)])
+LcVal(l) == LET a == LcFold(l, 1, [num |-> 0, loose |-> 0, nz |-> 0])
+            IN [num |-> a.num, loose |-> a.loose, det |-> a.nz = Len(l), nterms |-> Len(l)]
 
 D2 == Case.dev.rows
 DevVerdict ==
@@ -72,6 +96,7 @@ CFinish ==
   /\ pos = Len(Case.ops) + 1
   /\ PrintT(ToJson([tid |-> tid, overflow |-> MaxCoef >= 2^12,
                     meas |-> [j \in 1..Len(Case.meas) |-> CMeas(Case.meas[j])],
+                    lc |-> [k \in 1..Len(Case.lc) |-> LcVal(Case.lc[k])],
                     tab |-> tab, self |-> SelfVerdict, dev |-> DevVerdict, flags |-> DevFlags]))
   /\ pos' = pos + 1 /\ br' = <<>> /\ tab' = <<>> /\ UNCHANGED tid
 CNext == CStep \/ CFinish
